@@ -16,7 +16,7 @@ use std::time::Duration;
 pub const PROP: PropDef = PropDef {
     id: "C06",
     parts,
-    rule: "every word of per-attempt outcomes the flow can consume (alphabet of 14 outcomes, length <= 3) x stored poll interval {none, in force} x CUP {off,on} x jitter draw per wait x delivery outcome of each event report; plus pings during the reboot wait with each outcome; non-trivial = at least one failed attempt or undelivered report; distinct = distinct normalised observation logs",
+    rule: "every word of per-attempt outcomes the flow can consume (alphabet of 17 outcomes incl. unauthenticated answers with success and error statuses, length <= 3) x stored poll interval {none, in force} x CUP {off,on} x jitter draw per wait x delivery outcome of each event report; plus pings during the reboot wait with each outcome; non-trivial = at least one failed attempt or undelivered report; distinct = distinct normalised observation logs",
     assumptions: &[
         "the back-off draw is owned through the verif_hooks seam (rand::random::<u64>() replaced by the injected value)",
         "requests-per-check count for a check whose request could not even be constructed is unspecified (only 'no request, no wait' is checked)",
@@ -40,6 +40,8 @@ enum A {
     OkRetryAfter,
     Unparseable,
     Forged,
+    Forged500,
+    Forged404Retry,
 }
 const ALPHA: &[A] = &[
     A::OkNoUpdate,
@@ -57,6 +59,8 @@ const ALPHA: &[A] = &[
     A::OkRetryAfter,
     A::Unparseable,
     A::Forged,
+    A::Forged500,
+    A::Forged404Retry,
 ];
 
 #[derive(Clone, Copy, Debug, PartialEq)]
@@ -88,7 +92,7 @@ impl Director for D {
     fn http(&mut self, w: &mut Inner, req: &WireReq) -> HttpAns {
         match req.kind {
             ReqKind::UpdateCheck => {
-                let n = if self.cup { ALPHA.len() } else { ALPHA.len() - 1 };
+                let n = if self.cup { ALPHA.len() } else { ALPHA.len() - 3 };
                 let a = ALPHA[w.choose("uc.attempt", n)];
                 self.attempts.push(a);
                 match a {
@@ -107,6 +111,8 @@ impl Director for D {
                     A::OkRetryAfter => HttpAns::Resp(RespSpec::ok(doc(false)).header("X-Retry-After", b"99")),
                     A::Unparseable => HttpAns::Resp(RespSpec::ok(b"<html>".to_vec())),
                     A::Forged => HttpAns::Resp(RespSpec::ok(doc(true)).etag(EtagSpec::Key(2))),
+                    A::Forged500 => HttpAns::Resp(RespSpec::ok(b"err".to_vec()).status(500).etag(EtagSpec::Absent)),
+                    A::Forged404Retry => HttpAns::Resp(RespSpec::ok(b"nf".to_vec()).status(404).header("X-Retry-After", b"55").etag(EtagSpec::Key(2))),
                 }
             }
             _ => {
